@@ -175,6 +175,7 @@ def stepXtr (s : DState) (op obs : String) : DState × String :=
         else ("-", pr)
       let ((f, w), pr) := (finishEntry w).run pr
       let env := if pr.cwd ≠ cwd0 then "cwd" else if pr.umask ≠ um0 then "umask" else "ok"
+      -- the harness chdir()s back between calls only in its own interest; the model keeps what the writer left
       ({ s with pr := pr, w := w }, s!"h={h.str} d={dst} f={f.str} env={env}")
     | _, _, _, _, _, _ => (s, "bad-op")
   | ["close"] =>
